@@ -17,7 +17,8 @@ RULE = (
     "Scalar.GetValue, CreateCopy(unit=), ChangeScalars, Quantity.ConvertScalarValue/Convert, db.Convert by type "
     "and by category on float/int/list/tuple/ndarray(float64,int64) and in exponent form, exponent path e in "
     "{-2,-1,2,3} against the power law, Array.GetValues for list/tuple/ndarray/tuple-of-tuples/list-of-tuples, "
-    "FixedArray.IndexAsScalar/ChangingIndex (Scalar with use_value_unit T/F, tuple, float), "
+    "FixedArray.IndexAsScalar/ChangingIndex (Scalar with use_value_unit T/F, tuple, float; also on an int64 ndarray), "
+    "each pair preceded by a lookup through the Unknown quantity (which accepts any unit name and converts nothing), "
     "UnitSystemManager.ConvertToCurrent/ConvertScalarToCurrent with and without a current mapping. Metadata: "
     "re-expressed objects keep category and quantity type. Default oracle: for every category and every unit of "
     "its type Scalar/FractionScalar(category, unit=v) carries Convert(default_unit->v, default_value). Own-unit: "
@@ -128,6 +129,15 @@ class Checker:
         else:
             ctx.cls("pairs_identity_or_same")
         R = self.run_route
+        # the Unknown quantity accepts any unit name and converts nothing; such a lookup before the real conversions
+        # must leave no trace in them (nothing may be remembered per unit name)
+        if "Unknown" in self.db.quantity_types:
+            qu = ObtainQuantity("<unknown>", "Unknown")
+            ctx.ev()
+            for tgt in (v, u):
+                got_u = qu.ConvertScalarValue(xs[0], tgt)
+                if got_u != xs[0]:
+                    ctx.record("unknown_quantity_conversion_not_identity", dict(case, route="unknown"), "ObtainQuantity('<unknown>','Unknown').ConvertScalarValue(%r,%r) = %r" % (xs[0], tgt, got_u))
         q_src = ObtainQuantity(u, cat)
 
         # --- Scalar routes
@@ -255,6 +265,30 @@ class Checker:
                 self.meta("FixedArray[%s].ChangingIndex(float)" % kind, case, r4, cat, qt, u)
 
         R("FixedArray", case, fixed_routes)
+
+        # --- FixedArray backed by an integer numpy array: a new non-integral element must not be truncated
+        def fixed_int_routes():
+            import numpy
+
+            iv = [int(i) for i in ints[:2]] + [3]
+            fa = FixedArray(3, numpy.array(iv, dtype=numpy.int64), u, cat)
+            y = 2.5
+            for label, r in (
+                ("float", fa.ChangingIndex(1, y)),
+                ("tuple", fa.ChangingIndex(1, (y, u))),
+                ("Scalar,use_value_unit=False", fa.ChangingIndex(1, Scalar(y, u, cat), use_value_unit=False)),
+                ("Scalar,use_value_unit=True", fa.ChangingIndex(1, Scalar(y, u, cat), use_value_unit=True)),
+            ):
+                wantv = [float(iv[0]), y, float(iv[2])]
+                self.cmp("FixedArray[ndarray int64].ChangingIndex(%s)" % label, case, [float(t) for t in r.GetValues()], wantv, [abs(t) + 1.0 for t in wantv])
+            back = Convert(qt, v, u, want[0])
+            r = fa.ChangingIndex(0, Scalar(want[0], v, cat), use_value_unit=False)
+            self.cmp("FixedArray[ndarray int64].ChangingIndex(Scalar in v,use_value_unit=False)", case, [float(r.GetValues()[0])], [back], [um.conv_scale(v, u, want[0]) + abs(back)])
+            g = fa.GetValues(v)
+            self.cmp("FixedArray[ndarray int64].GetValues", case, g, [Convert(qt, u, v, float(t)) for t in iv], [um.conv_scale(u, v, float(t)) + 1.0 for t in iv])
+
+        if abs(ints[0]) < 2**40 and abs(ints[1]) < 2**40:
+            R("FixedArray(int64)", case, fixed_int_routes)
 
         # --- unit system manager
         def usm_routes():
